@@ -145,18 +145,24 @@ pub struct RunOut {
 
 impl RunOut {
     pub fn identity(&self) -> String {
+        crate::util::sha256_hex(self.identity_text().as_bytes())
+    }
+
+    pub fn identity_text(&self) -> String {
         let mut s = format!("exit={:?} sig={:?}\n", self.exit, self.signal);
         s.push_str(&crate::util::sha256_hex(String::from_utf8_lossy(&self.stdout).replace(&self.root, "<ROOT>").as_bytes()));
         s.push('\n');
         s.push_str(&self.stderr);
         for (k, v) in &self.files {
-            s.push_str(&format!("{k}:{}\n", crate::util::sha256_hex(v)));
+            // file contents may spell the scratch root: normalise it away
+            let norm = if !self.root.is_empty() && v.windows(self.root.len()).any(|w| w == self.root.as_bytes()) { String::from_utf8_lossy(v).replace(&self.root, "<ROOT>").into_bytes() } else { v.clone() };
+            s.push_str(&format!("{k}:{}\n", crate::util::sha256_hex(&norm)));
         }
         for l in &self.log {
             // fd numbers are normalised away: only op/target/count/result
             s.push_str(&format!("{} {} {:?} {:?} {}\n", l.op, l.target, l.n.filter(|_| l.op != "open"), l.result.as_ref().map(|r| if l.op == "open" { 0 } else { *r }), l.injected));
         }
-        crate::util::sha256_hex(s.as_bytes())
+        s
     }
 }
 
@@ -178,7 +184,8 @@ fn scratch_base() -> PathBuf {
             } else {
                 std::env::temp_dir()
             };
-            let dir = parent.join(format!("verif-{}-{n}", std::process::id()));
+            // fixed-length name: file contents that spell the root must not change length between processes
+            let dir = parent.join(format!("verif-{:07}-{n:03}", std::process::id()));
             let _ = std::fs::remove_dir_all(&dir);
             if let Err(e) = std::fs::create_dir_all(&dir) {
                 eprintln!("HARNESS ERROR: cannot create scratch dir {dir:?}: {e}");
